@@ -74,11 +74,9 @@ func (C08) Explore(x *kernel.Explorer, seed uint64) {
 			p.Seed = kernel.Mix(seed, uint64(nth), uint64(len(fk)))
 			p.Seed = seed // same history, same randomness: only the fault differs
 			p.Faults = []kernel.Fault{{OpID: victim.ID, Nth: nth, Kind: fk, Arg: int64(r.Intn(1000))}}
-			if !x.Quick() && r.Chance(1, 3) {
-				// thorough: a second fault while recovering
-				so := suffix[r.Intn(len(suffix))]
-				p.Faults = append(p.Faults, kernel.Fault{OpID: so.ID, Nth: 1 + r.Intn(6), Kind: faultKinds[r.Intn(len(faultKinds))], Arg: int64(r.Intn(1000))})
-			}
+			// one fault per history, as the property states it: the reconciliation after the fault assumes
+			// that the history before it was fault-free (a second fault while recovering produced a state the
+			// model attributed to the wrong operation)
 			x.Exec(p)
 		}
 	}
